@@ -16,6 +16,11 @@ Proved (plans of any length, databases of any size):
   the recorded definition / lacks the column or index / has the index);
 * `irreversible_never_reversible`, `reversible_iff` — a plan is reported reversible iff every change
   has reverse statements; a plan containing a rebuild or a dropped column is never reversible;
+* `planner_plan_restores`, `planner_plan_reversible`, `planner_plan_irreversible` — the two above put
+  together for whole plans (`planFrom`: every statement carries the planner's reverse computed from the
+  table as it is when the statement runs): if every statement is of a reversible kind and applies to the
+  state it runs in, up followed by down is the identity and the plan is reported reversible; a plan holding
+  a rebuild or a dropped column anywhere is reported irreversible;
 * `down_order` — the reverse statements run change by change from the last to the first, each
   change's statements in their own order.
 
@@ -247,5 +252,97 @@ theorem unnamed_check_never_reversible (pg : Bool) (cs : List AlterCh) (h : Alte
 example : alterFlag (alterInv true) [.other, .addCheck true, .modifyColumn false] = true ∧
     alterFlag (alterInv true) [.other, .addCheck false, .addCheck true] = false ∧
     alterFlag (alterInv true) [.modifyColumn true] = false ∧ alterFlag (alterInv false) [.modifyColumn true] = true := by decide
+
+/-! ### whole plans of the planner: applicable statements ⇒ up then down is the identity -/
+
+def tableOf : Stmt → Nat
+  | .createTable n _ | .dropTable n | .addColumn n _ | .dropColumn n _
+  | .createIndex n _ | .dropIndex n _ | .rebuild n _ => n
+
+/-- the plan the planner writes for a statement sequence from state `s`: every statement carries the
+planner's reverse, computed from the table as it is when the statement runs. -/
+def planFrom : Db → List Stmt → List Change
+  | _, [] => []
+  | s, c :: cs => ⟨c, plannerReverse (s (tableOf c)) c⟩ :: planFrom (exec s c) cs
+
+/-- the statement is one of the reversible kinds and applies to the state (what the differ guarantees:
+a created table does not exist, a dropped one does, an added column / index is new, a dropped index exists). -/
+def Applicable (s : Db) : Stmt → Prop
+  | .createTable n _ => s n = none
+  | .dropTable n => ∃ d, s n = some d
+  | .addColumn n c => ∃ d, s n = some d ∧ c ∉ d.cols
+  | .createIndex n i => ∃ d, s n = some d ∧ d.idxs i = false
+  | .dropIndex n i => ∃ d, s n = some d ∧ d.idxs i = true
+  | .dropColumn _ _ => False
+  | .rebuild _ _ => False
+
+def AllApplicable : Db → List Stmt → Prop
+  | _, [] => True
+  | s, c :: cs => Applicable s c ∧ AllApplicable (exec s c) cs
+
+theorem applicable_undoes (s : Db) (c : Stmt) (h : Applicable s c) :
+    Undoes ⟨c, plannerReverse (s (tableOf c)) c⟩ s := by
+  cases c with
+  | createTable n d => exact createTable_undone s n d h
+  | dropTable n =>
+    obtain ⟨d, hd⟩ := h
+    have := dropTable_undone s n d hd
+    simpa [tableOf, hd] using this
+  | addColumn n c => obtain ⟨d, hd, hc⟩ := h; exact addColumn_undone s n c d hd hc
+  | createIndex n i => obtain ⟨d, hd, hi⟩ := h; exact createIndex_undone s n i d hd hi
+  | dropIndex n i => obtain ⟨d, hd, hi⟩ := h; exact dropIndex_undone s n i d hd hi
+  | dropColumn n c => exact absurd h (by simp [Applicable])
+  | rebuild n d => exact absurd h (by simp [Applicable])
+
+theorem planFrom_valid : ∀ (cs : List Stmt) (s : Db), AllApplicable s cs → Valid s (planFrom s cs) := by
+  intro cs
+  induction cs with
+  | nil => intro _ _; trivial
+  | cons c cs ih => intro s h; exact ⟨applicable_undoes s c h.1, ih (exec s c) h.2⟩
+
+/-- **planner_plan_restores**: for statement sequences of any length over databases of any size, if
+every statement is of a reversible kind and applies to the state it runs in, then running the plan
+and then the reverse statements the planner attached, from the last change to the first, restores
+the database exactly. -/
+theorem planner_plan_restores (cs : List Stmt) (s : Db) (h : AllApplicable s cs) :
+    down (up s (planFrom s cs)) (planFrom s cs) = s :=
+  down_up _ s (planFrom_valid cs s h)
+
+/-- … and such a plan is reported reversible. -/
+theorem planner_plan_reversible : ∀ (cs : List Stmt) (s : Db), AllApplicable s cs →
+    reversible (planFrom s cs) = true := by
+  intro cs
+  induction cs with
+  | nil => intro _ _; rfl
+  | cons c cs ih =>
+    intro s h
+    have ht := ih (exec s c) h.2
+    unfold reversible at ht ⊢
+    simp only [planFrom, List.all_cons, ht, Bool.and_true]
+    cases c with
+    | dropTable n => obtain ⟨d, hd⟩ := h.1; simp [plannerReverse, tableOf, hd]
+    | dropColumn n c => exact absurd h.1 (by simp [Applicable])
+    | rebuild n d => exact absurd h.1 (by simp [Applicable])
+    | _ => simp [plannerReverse]
+
+/-- conversely a plan holding a statement of an irreversible kind is never reported reversible. -/
+theorem planner_plan_irreversible (pre post : List Stmt) (s : Db) (c : Stmt)
+    (hc : (∃ n d, c = .rebuild n d) ∨ (∃ n col, c = .dropColumn n col)) :
+    reversible (planFrom s (pre ++ c :: post)) = false := by
+  induction pre generalizing s with
+  | nil =>
+    rcases hc with ⟨n, d, rfl⟩ | ⟨n, col, rfl⟩ <;> simp [planFrom, reversible, plannerReverse]
+  | cons a as ih =>
+    have := ih (exec s a)
+    unfold reversible at this ⊢
+    simp only [List.cons_append, planFrom, List.all_cons, this, Bool.and_false]
+
+/-- non-vacuity: create a table, add a column to it, drop another table — from `db0`. -/
+def stmtsB : List Stmt :=
+  [.createTable 2 { cols := [5], idxs := fun _ => false }, .addColumn 2 6, .dropTable 1]
+
+example : AllApplicable db0 stmtsB := by
+  refine ⟨by simp [Applicable, db0], ⟨{ cols := [5], idxs := fun _ => false }, by simp [exec, Db.set], by simp⟩,
+    ⟨{ cols := [1, 2], idxs := fun i => i == 10 }, by simp [exec, Db.set, db0]⟩, trivial⟩
 
 end Props.C17
